@@ -485,6 +485,25 @@ impl DiskCache {
                 }
 //@ end
 
+// the two read-only critical sections: what `num_items()` / `total_bytes()` report is the guarded state's counters, i.e. (by the
+// lock invariant) the number and the summed lengths of the tracked items
+//@ extract chunk_cache/src/disk.rs in `impl DiskCache` region num_items
+//@ block `pub fn num_items(&self) -> Result<usize, ChunkCacheError> {`
+//@ optsubst `let state = self.state.lock()?;` => `` :: R11 guard erasure: the guarded state is the parameter
+//@ sig `fn num_items_locked(state: &CacheState) -> (r: Result<usize, ChunkCacheError>)`
+//@ contract
+        requires acct_ok(*state),
+        ensures /*@C13*/ r matches Ok(n) && n as int == msum(state.inner@, false),
+//@ end
+//@ extract chunk_cache/src/disk.rs in `impl DiskCache` region total_bytes
+//@ block `pub fn total_bytes(&self) -> Result<u64, ChunkCacheError> {`
+//@ optsubst `let state = self.state.lock()?;` => `` :: R11 guard erasure: the guarded state is the parameter
+//@ sig `fn total_bytes_locked(state: &CacheState) -> (r: Result<u64, ChunkCacheError>)`
+//@ contract
+        requires acct_ok(*state),
+        ensures /*@C13*/ r matches Ok(n) && n as int == msum(state.inner@, true),
+//@ end
+
 //@ extract chunk_cache/src/disk.rs in `impl DiskCache` region initialize_state
 //@ from `total_bytes += cache_item.len;`
 //@ to `items.push(VerificationCell::new_unverified(cache_item));`
